@@ -19,7 +19,7 @@ EXPLANATION = (
 NOT_DECIDED = ["exactly-once, per-sender order and 'no stranded peer' over all interleavings"]
 ASSUMPTIONS = ["one receiver per bounded / unbounded channel (documented contract)"]
 SIG = "fiber_signal"
-NO_WAITER, RAISED = 0, -1
+NO_WAITER, RAISED, RTW = 0, -1, -1
 
 
 def check_send_recv(ctx, P):
@@ -147,13 +147,13 @@ def check_signal(ctx, P):
         isx = lambda n: n is x.node
         isscr = nodeset([l.node for l in r.loads_of("fiber", "scratch")])
         for old in (NO_WAITER, RAISED, 0x4000):
-            atom = atom_from([(isx, old), (isscr, -1)])
+            atom = atom_from([(isx, old), (isscr, RTW)])
             woke = reach(r, sc, atom)
             if woke != (old == 0x4000):
-                bad = bad or "old value %s: wakes=%s" % ({0: "NO_WAITER", -1: "RAISED"}.get(old, "fiber"), woke)
+                bad = bad or "old value %s: wakes=%s" % ({NO_WAITER: "NO_WAITER", RAISED: "RAISED"}.get(old, "fiber"), woke)
             for rt in r.returns():
                 if reach(r, [rt], atom) and ret_const(r, rt) != (1 if old == 0x4000 else 0):
-                    bad = bad or "old value %s: returns %s" % ({0: "NO_WAITER", -1: "RAISED"}.get(old, "fiber"), ret_const(r, rt))
+                    bad = bad or "old value %s: returns %s" % ({NO_WAITER: "NO_WAITER", RAISED: "RAISED"}.get(old, "fiber"), ret_const(r, rt))
         rst = [s.node for s in r.stores_to(SIG, "waiter") if s.kind == "assign" and strip(s.value).cv == NO_WAITER]
         for q in sc:
             if not rst or r.dominated_by(q, nodeset(rst)) is not None:
@@ -311,8 +311,36 @@ def check_handoff_dep(ctx, P):
         o.ok("hand-off obligations of %d signal/channel functions discharged" % len(mine))
 
 
+def check_sentinels(ctx, P):
+    global NO_WAITER, RAISED, RTW
+    from rules import macro_constant
+    o = ctx.ob("signal.sentinel", "", "FIBER_SIGNAL_NO_WAITER, FIBER_SIGNAL_RAISED and FIBER_SIGNAL_READY_TO_WAKE are compile-time constants, the same in every "
+               "translation unit; NO_WAITER differs from RAISED; none of them other than NO_WAITER can be a fiber's address",
+               "the signal word and the scratch marker are written by one translation unit and compared by another")
+    bad = site = None
+    vals = {}
+    for nm in ("FIBER_SIGNAL_NO_WAITER", "FIBER_SIGNAL_RAISED", "FIBER_SIGNAL_READY_TO_WAKE"):
+        v, b, st = macro_constant(P, nm)
+        vals[nm] = v
+        if b:
+            bad, site = bad or b, site or st
+    if bad is None:
+        if vals["FIBER_SIGNAL_NO_WAITER"] == vals["FIBER_SIGNAL_RAISED"]:
+            bad = "NO_WAITER and RAISED have the same value"
+        for nm in ("FIBER_SIGNAL_RAISED", "FIBER_SIGNAL_READY_TO_WAKE"):
+            v = vals[nm]
+            if v == 0 or (4096 <= v < 2 ** 47 and v % 8 == 0):
+                bad = bad or "%s = %#x can be NULL / a fiber's address" % (nm, v)
+    if bad:
+        o.fail(bad, site=site, construct="signal sentinel")
+        raise AnalysisBroken("signal markers are not constants: the tables cannot be evaluated")
+    o.ok("NO_WAITER=%d RAISED=%d READY_TO_WAKE=%d" % (vals["FIBER_SIGNAL_NO_WAITER"], vals["FIBER_SIGNAL_RAISED"], vals["FIBER_SIGNAL_READY_TO_WAKE"]))
+    NO_WAITER, RAISED, RTW = vals["FIBER_SIGNAL_NO_WAITER"], vals["FIBER_SIGNAL_RAISED"], vals["FIBER_SIGNAL_READY_TO_WAKE"]
+
+
 def run(ctx):
     P = ctx.prog()
+    check_sentinels(ctx, P)
     check_handoff_dep(ctx, P)
     from props import deps
     deps.depend(ctx, P, "C15", "queue.dep", "the unbounded channels' message queues (mpsc_fifo, spsc_fifo)",
